@@ -7,7 +7,8 @@ C10 as decidable monitors over what the real code was observed to do.
                 exactly 1..total, pairwise distinct, join order respected.
 * `noRepeat`  – the `membershipChanged` events one instance published: a numbering
                 is announced only when it differs from the one in effect.
-* `collides`  – two members hold the same number (the F8 classifier).
+* `collides`  – two members hold the same number (the classifier of finding F8, which commit
+                23681a3 repaired: a hit is a plain failure now, `C10.tie-inconsistent`).
 -/
 namespace GoDcp.Spec.C10
 
@@ -27,7 +28,9 @@ def distinctNumbers (obs : List Obs) : Bool := nodupB (obs.map fun o => o.2.1)
 def covers (obs : List Obs) : Bool :=
   (List.range obs.length).all fun k => obs.any fun o => o.2.1 == k + 1
 
-/-- a member that joined strictly earlier has the strictly smaller number -/
+/-- a member that joined strictly earlier has the strictly smaller number (members with EQUAL join
+    times are ordered by instance id – `Props/C10 rank_numbering_join_order`; the ids are not part of
+    the observation, so for them the monitor checks distinctness and coverage only) -/
 def joinOrder (obs : List Obs) : Bool :=
   obs.all fun a => obs.all fun b => !decide (a.1 < b.1) || decide (a.2.1 < b.2.1)
 
